@@ -85,7 +85,7 @@ func (srv *Srv) auth(req *SrvReq) {
 
 func (srv *Srv) authPost(req *SrvReq) {
 	if req.Rc != nil && req.Rc.Type == Rauth {
-		req.Afid.IncRef()
+		req.Afid.retain()
 	}
 }
 
@@ -138,7 +138,7 @@ func (srv *Srv) attach(req *SrvReq) {
 func (srv *Srv) attachPost(req *SrvReq) {
 	if req.Rc != nil && req.Rc.Type == Rattach {
 		req.Fid.Type = req.Rc.Qid.Type
-		req.Fid.IncRef()
+		req.Fid.retain()
 	}
 }
 
@@ -240,7 +240,7 @@ func (srv *Srv) walkPost(req *SrvReq) {
 	}
 
 	if req.Newfid.fid != req.Fid.fid {
-		req.Newfid.IncRef()
+		req.Newfid.retain()
 	}
 }
 
